@@ -42,9 +42,12 @@ def _explore(args):
         return ("analysis-error", str(e))
 
 
-def explorations(tree, tier, seed=0):
-    """run the environments of the tier; returns {envname: Summary}.  Cached per process by file digest."""
+def explorations(tree, tier, seed=0, rep=None):
+    """run the environments of the tier; returns {envname: Summary}.  Cached per process by file digest.
+    With rep.skip_a3 set (first pass of the checker self-test) nothing is explored and {} is returned."""
     from .srcmodel import AnalysisError
+    if rep is not None and getattr(rep, "skip_a3", False):
+        return {}
     envs = QUICK_ENVS if tier == "quick" else THOROUGH_ENVS
     dig = (tuple(sorted((p, hash(t)) for p, t in tree.files.items())), seed)
     out = {}
@@ -75,6 +78,8 @@ def explorations(tree, tier, seed=0):
 
 
 def fill_extra(rep, sums):
+    if not sums:
+        return
     q = sums.get("quick") or list(sums.values())[0]
     rep.extra["states"] = sum(s.nstates for s in sums.values())
     rep.extra["transitions"] = sum(s.ntrans for s in sums.values())
